@@ -10,8 +10,9 @@ from kernel_common import op, new_prog
 REDUCTIONS = ["none", "dpor", "sdpor", "odpor"]
 
 
-def gen_mc_prog(rng, max_actors=3, max_ops=4, kinds=("mutex", "sem", "bar", "comm", "cv")):
-    """Small program at MC granularity (no time, no condition variables)."""
+def gen_mc_prog(rng, max_actors=3, max_ops=4, kinds=("mutex", "sem", "bar", "comm", "cv", "life")):
+    """Small program at MC granularity (no time). kind "life": some actors join others (ACTOR_JOIN: enabled once the target has
+    terminated), the last actor may be created by the first one (ACTOR_CREATE)."""
     na = rng.randint(2, max_actors)
     nm = rng.randint(1, 2) if "mutex" in kinds else 0
     ns = rng.randint(0, 1) if "sem" in kinds else 0
@@ -91,7 +92,20 @@ def gen_mc_prog(rng, max_actors=3, max_ops=4, kinds=("mutex", "sem", "bar", "com
             if rng.random() < 0.7:
                 ops.append(op("wait", h))
         actors.append(ops)
-    return new_prog(rec=rec, cap=cap, bar=bar, ncv=ncv, actors=actors, perm=[0] * nx, timed=False, gran="mc")
+    spawn = [False] * na
+
+    def slot(ops):      # an insertion point that does not separate a "trylock?" from the unlock it guards
+        c = [i for i in range(len(ops) + 1) if not (i > 0 and ops[i - 1]["op"] == "trylock" and ops[i - 1]["p"] == 1)]
+        return rng.choice(c)
+    if "life" in kinds and rng.random() < 0.35:
+        for a in range(na):
+            if rng.random() < 0.5:
+                t = rng.choice([x for x in range(na) if x != a])
+                actors[a].insert(slot(actors[a]), op("join", t + 1, 0, -1))
+        if na >= 2 and rng.random() < 0.4 and not any(o["op"] == "join" and o["o"] == na for a in actors for o in a):
+            spawn[na - 1] = True        # (nobody joins an actor that may not exist yet: the driver would abort)
+            actors[0].insert(slot(actors[0]), op("create", na))
+    return new_prog(rec=rec, cap=cap, bar=bar, ncv=ncv, actors=actors, perm=[0] * nx, timed=False, gran="mc", spawn=spawn)
 
 
 def parse_transition(tr, pidmap):
@@ -106,6 +120,9 @@ def parse_transition(tr, pidmap):
     m = re.search(r"owner: (-?\d+)", tr)
     if m:
         d["cown"] = pidmap.get(int(m.group(1)), 0) if int(m.group(1)) >= 0 else 0
+    m = re.search(r"(?:target|child) (-?\d+)", tr)
+    if m:
+        d["ctgt"] = pidmap.get(int(m.group(1)), 0) if int(m.group(1)) >= 0 else 0
     m = re.search(r"capacity: (-?\d+)", tr)
     if m:
         d["ccap"] = int(m.group(1))
@@ -170,7 +187,10 @@ def run_simgrid_mc(ctx, idx, prog, reduction="odpor", extra_cfg=(), timeout=120,
         raise vlib.InfraError("simgrid-mc could not bind its master socket 4 times in a row: " + text[-300:])
     if "error while loading shared libraries" in text:
         raise vlib.InfraError("simgrid-mc could not start (library being rebuilt?): " + text[-300:])
-    files = sorted(glob.glob(os.path.join(d, "t_*.ndjson")), key=lambda f: int(re.search(r"t_(\d+)", f).group(1)))
+    # file t_<id>.ndjson, id = <pid> or <pid>.<k> for the k-th later process that got the same pid (pids are reused in long runs)
+    def fid(f):
+        return re.search(r"t_([0-9.]+)\.ndjson$", f).group(1)
+    files = sorted(glob.glob(os.path.join(d, "t_*.ndjson")), key=lambda f: [int(x) for x in fid(f).split(".")])
     recs = []
     for f in files:
         rs = []
@@ -187,12 +207,20 @@ def run_simgrid_mc(ctx, idx, prog, reduction="odpor", extra_cfg=(), timeout=120,
     # prefix of its parent's complete trace followed by its own lines. The checker's own file holds the H4 lines.
     byp = {}
     for f, rs in zip(files, recs):
-        byp[int(re.search(r"t_(\d+)", f).group(1))] = rs
+        byp[fid(f)] = rs
     cexec, creplay, cstatus = {}, {}, {}
     pos, owed = {}, {}      # per application process: steps made so far; replayed steps whose status is still to come
     checker_pids = set()
+    ninc = {}               # application processes the checker has created so far with a given pid (capp records, hook H4)
     for pid, rs in byp.items():
         for r in rs:
+            if r.get("e") == "capp":
+                ninc[r["app"]] = ninc.get(r["app"], 0) + 1
+                checker_pids.add(pid)
+                continue
+            if "app" in r:      # the process the checker is talking to = the latest one created with that pid
+                k = max(0, ninc.get(r["app"], 1) - 1)
+                r = dict(r, app=str(r["app"]) + ("." + str(k) if k else ""))
             if r.get("e") == "cexec":
                 cexec.setdefault(r["app"], []).append(r)
                 pos[r["app"]] = pos.get(r["app"], 0) + 1
@@ -228,8 +256,8 @@ def run_simgrid_mc(ctx, idx, prog, reduction="odpor", extra_cfg=(), timeout=120,
             return memo[pid]
         rs = byp[pid]
         head = rs[0] if rs and rs[0].get("e") == "forked" else None
-        if head is not None and head["from"] in owned and depth < 200:
-            pre = full(head["from"], depth + 1)[: head["lines"]]
+        if head is not None and str(head["from"]) in owned and depth < 200:
+            pre = full(str(head["from"]), depth + 1)[: head["lines"]]
         else:
             pre = []
         memo[pid] = pre + owned[pid]
@@ -252,7 +280,7 @@ def run_simgrid_mc(ctx, idx, prog, reduction="odpor", extra_cfg=(), timeout=120,
         if held is not None:
             o.append(held)
         return o
-    parents = {rs[0]["from"] for rs in byp.values() if rs and rs[0].get("e") == "forked"}
+    parents = {str(rs[0]["from"]) for rs in byp.values() if rs and rs[0].get("e") == "forked"}
     roots = [pid for pid in owned if not (byp[pid] and byp[pid][0].get("e") == "forked")]
     traces = []
     for pid in sorted(owned):
@@ -269,6 +297,7 @@ def run_simgrid_mc(ctx, idx, prog, reduction="odpor", extra_cfg=(), timeout=120,
            "replays": re.findall(r"model-check/replay:'([0-9;/]*)'", text), "timeout": rc == 124}
     m = re.search(r"(\d+) unique states visited; (\d+) explored traces", text)
     res["explored_traces"] = int(m.group(2)) if m else None
+    res["_args"] = (idx, prog, reduction, tuple(extra_cfg), timeout, with_checker_view)
     # counter-example blocks
     ces, cur = [], None
     for line in text.splitlines():
@@ -344,6 +373,11 @@ def regression_progs():
         new_prog(rec=[False], ncv=1, timed=False, gran="mc",
                  actors=[[op("lock", 1), op("unlock", 1), op("trylock", 1, 1), op("unlock", 1)],
                          [op("lock", 1), op("cvwaitfor", 1, 1, 1), op("unlock", 1)]]),
+        # actor creation and join (ACTOR_CREATE, ACTOR_JOIN: enabled once the target has terminated)
+        new_prog(rec=[False], timed=False, gran="mc", spawn=[False, False, True],
+                 actors=[[op("lock", 1), op("create", 3), op("unlock", 1), op("join", 3, 0, -1), op("trylock", 1, 1), op("unlock", 1)],
+                         [op("join", 1, 0, -1), op("lock", 1), op("unlock", 1)],
+                         [op("lock", 1), op("unlock", 1)]]),
     ]
 
 
@@ -379,7 +413,7 @@ def explore_all(ctx, progs, reductions, extra_cfg=(), timeout=180):
     return dict(zip(jobs, res))
 
 
-def validate_explorations(ctx, progs, results):
+def validate_explorations(ctx, progs, results, _confirm=True):
     """Every execution explored by simgrid-mc must be a behaviour of SgKernel (MC granularity), the checker's view of each
     transition included (C43). Returns (rejections with key, terminal outcome sets per key)."""
     keys, traces = [], []
@@ -393,6 +427,19 @@ def validate_explorations(ctx, progs, results):
     for x in rej:
         x["key"] = keys[x["index"]]
         x["trace"] = traces[x["index"]][1]
+    # simgrid-mc is deterministic: a rejection is reported only if a second exploration of the same program is rejected too
+    # (an application process that loses its checker under load leaves a truncated trace)
+    if rej and _confirm:
+        confirmed = []
+        for key in sorted({x["key"] for x in rej}):
+            idx, prog, red, extra, to, wcv = results[key]["_args"]
+            r2 = run_simgrid_mc(ctx, idx + 500000, prog, red, extra, to, wcv)
+            rej2, _ = validate_explorations(ctx, progs, {key: r2}, _confirm=False)
+            if rej2:
+                confirmed += [x for x in rej if x["key"] == key]
+            else:
+                ctx.cov["unconfirmed_mc_rejections"] = ctx.cov.get("unconfirmed_mc_rejections", 0) + 1
+        rej = confirmed
     term = {}
     for idx, ready, o in outc:
         if not ready:
